@@ -229,9 +229,12 @@ impl<'a> Interp<'a> {
                 let name_taken = sid.and_then(|s| self.streams.get(&s)).map(|s| s.topics.values().any(|t| t.name == name)).unwrap_or(false);
                 let (ms, size_ok) = self.size_of(max_size);
                 let exp = if sid.is_none() || collides || name_taken || !valid_name(&name) || !size_ok { Exp::Err } else { Exp::Ok };
+                // the compression setting is derived from two generated fields (no new field: older replay files keep their shape)
+                let gzip = (expiry as u32 + partitions as u32) % 3 == 1;
+                let comp = if gzip { CompressionAlgorithm::Gzip } else { CompressionAlgorithm::None };
                 let n = self.node.as_ref().unwrap();
                 let r = n.block_on(async {
-                    self.cl(via).create_topic(&sident, &name, partitions as u32, CompressionAlgorithm::None, repl, tid, Self::expiry_of(expiry), ms).await
+                    self.cl(via).create_topic(&sident, &name, partitions as u32, comp, repl, tid, Self::expiry_of(expiry), ms).await
                 });
                 let got_id = r.as_ref().ok().map(|d| d.id);
                 let ok = self.verdict("create_topic", r.map(|_| ()), exp)?;
@@ -248,7 +251,7 @@ impl<'a> Interp<'a> {
                     self.note_create(tid.is_some());
                     self.streams.get_mut(&sid.unwrap()).unwrap().topics.insert(
                         gid,
-                        MTopic { id: gid, name, partitions: partitions as u32, expiry, max_size, repl: repl.unwrap_or(1), groups: BTreeMap::new(), msgs: vec![vec![]; partitions as usize], offsets: BTreeMap::new() },
+                        MTopic { id: gid, name, partitions: partitions as u32, expiry, max_size, repl: repl.unwrap_or(1), groups: BTreeMap::new(), msgs: vec![vec![]; partitions as usize], offsets: BTreeMap::new(), gzip },
                     );
                 }
                 Ok(ok)
@@ -264,8 +267,10 @@ impl<'a> Interp<'a> {
                 if matches!(topic, Ref::ByName(_)) && tid.is_some() {
                     self.out.label("update-topic-by-name");
                 }
+                let gzip = (expiry as u32 + max_size as u32) % 3 == 1;
+                let comp = if gzip { CompressionAlgorithm::Gzip } else { CompressionAlgorithm::None };
                 let n = self.node.as_ref().unwrap();
-                let r = n.block_on(async { self.cl(via).update_topic(&sident, &tident, &name, CompressionAlgorithm::None, repl, Self::expiry_of(expiry), ms).await });
+                let r = n.block_on(async { self.cl(via).update_topic(&sident, &tident, &name, comp, repl, Self::expiry_of(expiry), ms).await });
                 let ok = self.verdict("update_topic", r, exp)?;
                 if ok {
                     let t = self.streams.get_mut(&sid.unwrap()).unwrap().topics.get_mut(&tid.unwrap()).unwrap();
@@ -276,6 +281,10 @@ impl<'a> Interp<'a> {
                     t.expiry = expiry;
                     t.max_size = max_size;
                     t.repl = repl.unwrap_or(1);
+                    t.gzip = gzip;
+                    if gzip {
+                        self.out.label("topic-compression-gzip");
+                    }
                 }
                 Ok(ok)
             }
